@@ -19,6 +19,7 @@ class Instance:
     kw: dict[tuple[str, str, str], str | int] | None = None   # optional: how each edge binds (harness only)
     trace_only: bool = False                   # too large to model-check in the quick tier: recorded executions only
     dup_edges: list = field(default_factory=list)   # (src task, output, sink): the sink reads that dataset through a SECOND parameter too
+    few: int = 0                               # > 0: a large instance, only this many recorded executions (one hash seed, no order enumeration)
 
     @property
     def tasks(self) -> list[str]:
@@ -111,7 +112,7 @@ def shapes() -> dict[str, tuple[dict, list]]:
     # ... and names with dots whose "task.output" strings coincide: ("st", "mean.0") and ("st.mean", "0")
     S["collide_dots"] = ({"st": ["mean.0"], "st.mean": one, "u": one}, [("st", "mean.0", "u"), ("st.mean", "0", "u")])
     # more computable tasks and idle workers in one round than any per-round limit a controller might have (34 > 32)
-    S["wide34"] = ({f"s{i:02d}": one for i in range(34)}, [])
+    S["wide34"] = ({"s": one, **{f"m{i:02d}": one for i in range(34)}}, [("s", "0", f"m{i:02d}") for i in range(34)])
     S["fanout4"] = ({"s": one, "m1": one, "m2": one, "m3": one, "m4": one}, [("s", "0", "m1"), ("s", "0", "m2"), ("s", "0", "m3"), ("s", "0", "m4")])
     S["multiout3"] = ({"g": ["0", "1", "2"], "u": one, "v": one}, [("g", "0", "u"), ("g", "2", "u"), ("g", "1", "v")])
     S["sixtasks"] = ({"a": one, "b": one, "c": one, "d": one, "p": one, "q": one},
@@ -178,8 +179,6 @@ def quick_instances() -> list[Instance]:
         I.append(Instance(f"{shape}_3x1_threehosts", outs, edges, cluster(3, 1), ext, trace_only=True))
     outs, edges = S["collide_dots"]
     I.append(Instance("collide_dots_1x1_sink", outs, edges, cluster(1, 1), [("u", "0"), ("st", "mean.0")], trace_only=True))
-    outs, edges = S["wide34"]
-    I.append(Instance("wide34_1x34_some", outs, edges, cluster(1, 34), [("s00", "0"), ("s33", "0")], trace_only=True))
     for nh, nw in [(1, 1), (2, 1)]:
         outs, edges = S["collide"]
         I.append(Instance(f"collide_{nh}x{nw}_sink", outs, edges, cluster(nh, nw), [("u", "0"), ("g", "1")], trace_only=True))
@@ -217,6 +216,10 @@ def thorough_instances() -> list[Instance]:
                 seen.add(name)
                 I.append(Instance(name, outs, edges, cluster(nh, nw), ext))
     I += [i for i in quick_instances() if (i.trace_only or i.dup_edges or i.gpu_tasks) and i.name not in seen]
+    # more computable tasks and idle workers in ONE round than any per-round limit a controller might have (34 > 32); trace
+    # validation of an instance of this size takes minutes, so it is part of the thorough tier only
+    outs, edges = S["wide34"]
+    I.append(Instance("wide34_1x34_some", outs, edges, cluster(1, 34), [("m00", "0"), ("m33", "0")], trace_only=True, few=2))
     # GPU variants
     for shape in ["diamond", "fanout", "threecomp"]:
         outs, edges = S[shape]
